@@ -71,6 +71,10 @@ MergeAll(outs, S) == IF S = {} THEN [ok |-> TRUE, v |-> Empty]
                           IN IF ~r.ok \/ (DOMAIN r.v) \cap (DOMAIN outs[s]) # {} THEN [ok |-> FALSE, v |-> Empty]
                              ELSE [ok |-> TRUE, v |-> r.v @@ outs[s]]
 OutOf(n, v) == (n :> [n |-> n, i |-> v])
+\* echo nodes return their input unchanged (so that equal keys can meet at a fan-in and the merge can fail)
+NodeOut(gg, n, v) == IF n \in Range(gg.echo) THEN v ELSE OutOf(n, v)
+\* the harness state carries pointer (nil / non-nil) and container fields that no handler touches: their digest must never change
+FreshStateDigest == "true|7|1|u,v|5|true"
 \* state handlers that modify what they pass on (scenario flag hmod): the pre-handler adds the key "pre" to the node's input,
 \* the post-handler adds the key "q<node>" to its output -- "the values they return are what the node and its successors receive"
 HMod(gg) == gg.state /\ gg.hmod
@@ -93,7 +97,7 @@ NewFrame(gg, input) ==
   [g |-> gg, st |-> "route", outs |-> (START :> input), chosen |-> Empty, pending |-> Empty, running |-> {}, ins |-> Empty,
    status |-> [n \in GNodes(gg) |-> "unk"], step |-> 0, fresh |-> FALSE,
    cleared |-> {}, afterDue |-> {}, afterBlock |-> {}, aborted |-> {}, redo |-> {}, preDone |-> {}, expect |-> Empty,
-   trail |-> <<>>, canceled |-> FALSE, cs |-> 0, postDue |-> {}, postBlock |-> {}]
+   trail |-> <<>>, canceled |-> FALSE, dupok |-> FALSE, tainted |-> {}, poisonTargets |-> {}, poisonSrc |-> {}, cs |-> 0, postDue |-> {}, postBlock |-> {}]
 
 \* ---------- any-predecessor ----------
 PRouted(f, d) == {s \in DOMAIN f.outs : <<s, d>> \in DataEdges(f.g) \/ \E b \in DOMAIN f.chosen : BFrom(f.g, b) = s /\ d \in f.chosen[b]}
@@ -102,11 +106,15 @@ PQuiet(f) == DOMAIN f.pending = {} /\ f.running = {} /\ f.aborted = {}
 PAdvance(f) ==
   LET T == {d \in GNodes(f.g) \cup {END} : PRouted(f, d) # {}}
       ms == [d \in T |-> MergeAll(f.outs, PRouted(f, d))]
-  IN IF END \in T THEN (IF ms[END].ok THEN [f EXCEPT !.st = "expect_result", !.expect = ms[END].v] ELSE [f EXCEPT !.st = "expect_dup"])
+  \* (when END is reached while another node of the same step was sent un-mergeable values, either outcome is accepted)
+  IN IF END \in T THEN (IF ms[END].ok THEN [f EXCEPT !.st = "expect_result", !.expect = ms[END].v, !.dupok = \E d \in T : ~ms[d].ok,
+                                                        !.poisonTargets = {d \in T : PRouted(f, d) \cap f.tainted # {}}, !.poisonSrc = f.tainted]
+                         ELSE [f EXCEPT !.st = "expect_dup"])
      ELSE IF T = {} THEN [f EXCEPT !.st = "expect_stuck"]
      ELSE IF \E d \in T : ~ms[d].ok THEN [f EXCEPT !.st = "expect_dup"]
      ELSE [f EXCEPT !.st = "exec", !.pending = [d \in T |-> ms[d].v], !.outs = Empty, !.chosen = Empty,
-                    !.step = f.step + 1, !.fresh = TRUE, !.afterBlock = f.afterDue, !.postBlock = f.postDue]
+                    !.step = f.step + 1, !.fresh = TRUE, !.afterBlock = f.afterDue, !.postBlock = f.postDue,
+                    !.poisonTargets = {d \in T : PRouted(f, d) \cap f.tainted # {}}, !.poisonSrc = f.tainted, !.tainted = {}]
 
 \* ---------- all-predecessor (incremental trigger rule; covers batch and eager execution) ----------
 Decided(f, p) == \A b \in BranchesOf(f.g, p) : b \in DOMAIN f.chosen
@@ -147,6 +155,12 @@ StepLimitHit(f) == ~IsDag(f.g) /\ f.st = "exec" /\ f.fresh /\ f.step > MaxSteps(
 CanExec(f) == IF IsDag(f.g) THEN f.st = "route" ELSE f.st = "exec"
 DeadEnd(f) == IF IsDag(f.g) THEN f.st = "route" /\ (END \in Skipped(f) \/ (ReadyD(f) = {} /\ f.running = {} /\ f.aborted = {}))
               ELSE f.st = "expect_stuck"
+\* a node whose output stream carries an error item (fault kind "serr") finishes normally; whoever consumes that stream must fail:
+\* Poisoned(f, d) = target d (a node or END) was sent the output of such a node
+Poisoned(f, d) == IF IsDag(f.g) THEN \E p \in DataPreds(f.g, d) \cap f.tainted : DoneP(f, p) /\ RoutesData(f, p, d)
+                  ELSE d \in f.poisonTargets
+\* values with a common key meet at a fan-in: the merge, and with it the run, fails
+DupDue(f) == IF IsDag(f.g) THEN f.st = "route" /\ \E n \in ReadyD(f) : ~InputD(f, n).ok ELSE f.st = "expect_dup" \/ (f.st = "expect_result" /\ f.dupok)
 ResultReady(f) == IF IsDag(f.g) THEN f.st = "route" /\ END \in ReadyD(f) /\ InputD(f, END).ok ELSE f.st = "expect_result"
 ResultValue(f) == IF IsDag(f.g) THEN InputD(f, END).v ELSE f.expect
 \* a run that has nothing left to execute fails either way; the engine tests the step limit first
@@ -184,9 +198,10 @@ FinishNode(f, n, out0) ==
       ins2 == [x \in (DOMAIN f.ins) \ {n} |-> f.ins[x]]
       out == PostOut(f.g, n, out0)
       pd == IF f.g.state /\ f.g.post THEN f.postDue \cup {n} ELSE f.postDue
+      tn == IF n \in GNodes(f.g) /\ FailKind(f.g, n) = "serr" THEN f.tainted \cup {n} ELSE f.tainted
   IN IF IsDag(f.g) THEN [f EXCEPT !.status[n] = "done", !.running = f.running \ {n}, !.outs = (n :> out) @@ f.outs,
-                                  !.afterDue = due, !.ins = ins2, !.postDue = pd]
-     ELSE [f EXCEPT !.running = f.running \ {n}, !.outs = (n :> out) @@ f.outs, !.afterDue = due, !.ins = ins2, !.postDue = pd,
+                                  !.afterDue = due, !.ins = ins2, !.postDue = pd, !.tainted = tn]
+     ELSE [f EXCEPT !.running = f.running \ {n}, !.outs = (n :> out) @@ f.outs, !.afterDue = due, !.ins = ins2, !.postDue = pd, !.tainted = tn,
                     !.st = IF DOMAIN f.pending = {} /\ f.running \ {n} = {} /\ f.aborted = {} THEN "route" ELSE f.st]
 
 \* a child whose rule state is expect_result completes the parent's graph node with that value
@@ -228,12 +243,14 @@ ExecWhy(f, e, isAbort) == LET n == e.n IN
   ELSE IF ~CanExec(f) THEN "exec-not-expected-in-state-" \o f.st
   ELSE IF StepLimitHit(f) THEN "exec-beyond-step-limit"
   ELSE IF n \notin DOMAIN f.pending THEN (IF IsDag(f.g) /\ n \in GNodes(f.g) /\ f.status[n] # "unk" THEN "node-executed-twice" ELSE "exec-of-node-not-triggered")
+  ELSE IF Poisoned(f, n) THEN "stream-error-item-swallowed"
   ELSE IF PreIn(f.g, f.pending[n]) # e.i THEN "wrong-input"
   ELSE IF \E d \in (IF IsDag(f.g) THEN f.postDue ELSE f.postBlock) : n \in Succs(f.g, d) THEN "successor-started-before-post-handler"
   ELSE IF n \in IBefore(f.g) /\ n \notin f.cleared THEN "before-node-ran-without-interrupt"
   ELSE IF \E a \in Blockers(f) : n \in Succs(f.g, a) THEN "successor-of-after-node-started"
   ELSE IF f.g.state /\ n \notin f.preDone THEN "body-before-pre-handler"
   ELSE IF f.g.state /\ e.st # f.trail THEN "state-trail-mismatch"
+  ELSE IF f.g.state /\ e.sx # FreshStateDigest THEN "state-not-carried-unchanged"
   ELSE IF isAbort /\ n \notin RerunNodes(f.g) THEN "abort-of-non-rerun-node"
   ELSE "ok"
 AfterAbort(f, n) == [f EXCEPT !.aborted = f.aborted \cup {n}, !.preDone = f.preDone \ {n}, !.redo = f.redo \ {n}, !.fresh = FALSE,
@@ -287,7 +304,7 @@ OnDone(S, e) ==
   IF p \notin DOMAIN S.fr THEN BadS(S, "done-in-unknown-frame")
   ELSE LET f == S.fr[p]  n == e.n IN
        IF n \notin f.running THEN BadS(S, "done-of-node-not-running")
-       ELSE [S EXCEPT !.fr[p] = FinishNode(f, n, OutOf(n, f.ins[n]))]
+       ELSE [S EXCEPT !.fr[p] = FinishNode(f, n, NodeOut(f.g, n, f.ins[n]))]
 
 OnBranch(S, e) ==
   LET p == e.p
@@ -358,22 +375,27 @@ EndS(S) == [S EXCEPT !.top.st = "ended"]
 OnResult(S, e) ==
   LET f == View(S)[""] IN
   IF ~ResultReady(f) THEN BadS(S, "result-not-expected-in-state-" \o f.st)
+  ELSE IF Poisoned(f, END) THEN BadS(S, "stream-error-item-swallowed")
   ELSE IF ResultValue(f) # e.v THEN BadS(S, "wrong-result")
   ELSE IF e.sets # <<>> THEN BadS(S, "checkpoint-written-without-interrupt")
   ELSE EndS(S)
 
 \* failing nodes: running, configured to fail with this kind, as <<prefix, node>>
 Failing(V, kind) == UNION {{<<p, n>> : n \in {x \in V[p].running : x \in GNodes(V[p].g) /\ FailKind(V[p].g, x) = kind}} : p \in DOMAIN V}
+SerrRan(V) == \E p \in DOMAIN V : V[p].tainted # {} \/ V[p].poisonSrc # {}
 CancelRan(V) == \E p \in DOMAIN V : V[p].canceled
 ErrorWhy(gg, V, e) == LET c == e.class IN
   IF c = "hang" THEN "run-hangs"
   ELSE IF c = "escaped-panic" THEN "panic-escaped-the-run"
   ELSE IF e.sets # <<>> THEN "checkpoint-written-without-interrupt"
   ELSE IF c = "node" THEN
-       (IF ~\E x \in Failing(V, "err") : e.path = PathOf(gg, x[1]) \o <<x[2]>> THEN "error-names-wrong-node-path"
+       \* (an error item inside a node's output stream surfaces where it is consumed: the path is not constrained for it)
+       (IF ~SerrRan(V) /\ ~\E x \in Failing(V, "err") : e.path = PathOf(gg, x[1]) \o <<x[2]>> THEN "error-names-wrong-node-path"
         ELSE IF ~e.is \/ ~e.as THEN "cause-not-unwrappable"
-        ELSE IF ~\E x \in Failing(V, "err") : e.asnode = x[1] \o x[2] THEN "unwrapped-cause-of-another-node"
+        ELSE IF ~SerrRan(V) /\ ~\E x \in Failing(V, "err") : e.asnode = x[1] \o x[2] THEN "unwrapped-cause-of-another-node"
         ELSE "ok")
+  ELSE IF c = "dup" THEN
+       (IF \E p \in DOMAIN V : DupDue(V[p]) THEN "ok" ELSE "merge-error-not-expected")
   ELSE IF c = "panic" THEN
        (IF ~\E x \in Failing(V, "panic") : e.path = PathOf(gg, x[1]) \o <<x[2]>> THEN "panic-error-names-wrong-node-path" ELSE "ok")
   ELSE IF c = "maxsteps" THEN
